@@ -176,6 +176,7 @@ impl EditActor {
         let mut iot = None;
         if meta.path().is_ident("def"){
 
+            crate::model::expect_word(meta,Some(error::AVAIL_EDIT));
             if !tuples.0.0 {
                 if file {
                     tuples.0.1 = true; 
@@ -244,6 +245,8 @@ impl EditActor {
 
 
     pub fn add_if_unique(vec: &mut Option<Vec<(syn::Ident,bool)>>, meta:&syn::Meta, file: bool ){
+        // a method/trait name only
+        crate::model::expect_word(meta,Some(error::AVAIL_EDIT));
         let ident = crate::model::attribute::get_ident(meta);
         if let Some(v) = &vec {
             if v.iter().any(|(i,_)| ident.eq(i) ){
